@@ -19,7 +19,7 @@ ASSUMPTIONS = ["trees outside the reference flattener's fragment (Unsupported) a
 
 
 def plan(tier):
-    return {"budget_s": 50 if tier == "quick" else 500, "profiles": ["R"], "min_evaluations": 5000}
+    return {"budget_s": 50 if tier == "quick" else 500, "profiles": ["R"], "min_evaluations": 1000}
 
 
 def canon_blocks(bl):
